@@ -70,6 +70,8 @@ def main():
     engine = getattr(mod, clsname)()
 
     seed = int(os.environ.get("VERIF_SEED") or 0)
+    os.environ["VERIF_MODE"] = "op" if args.op else "replay" if args.replay else (
+        "digests" if args.digests is not None else "main")
     if args.op:
         sys.exit(engine.sub_operation(args.op, args.arg, args.tier, seed))
     if args.replay:
